@@ -15,6 +15,8 @@ use serde_json::{json, Value};
 use crate::src::{fnv, mix3, Src};
 
 pub const STACK: usize = 1 << 30;
+/// A generated case normally takes microseconds; one that runs this long stops the run as inconclusive (exit 2).
+pub const CASE_TIME_LIMIT_S: u64 = 60;
 
 #[derive(Clone, Debug)]
 pub struct Failure {
@@ -24,11 +26,14 @@ pub struct Failure {
     pub message: String,
     /// Human-readable minimal case.
     pub case: Value,
+    /// When set, the replay unit is this input of the named *case* sub-check
+    /// instead of the byte vector that produced the failure.
+    pub replay_override: Option<(String, Value)>,
 }
 
 impl Failure {
     pub fn new(sub: &str, sig: &str, message: String, case: Value) -> Failure {
-        Failure { sub: sub.to_string(), sig: sig.to_string(), message, case }
+        Failure { sub: sub.to_string(), sig: sig.to_string(), message, case, replay_override: None }
     }
 }
 
@@ -200,7 +205,17 @@ pub struct BytesSub {
     pub max_len: usize,
     pub quick: Budget,
     pub thorough: Budget,
+    /// The outcome of a case may depend on a schedule or on state left by
+    /// earlier cases (that dependence is what the property forbids): a failure
+    /// that does not reproduce when its input is re-executed is then reported
+    /// as observed instead of being treated as a harness problem.
+    pub keep_unreproducible: bool,
 }
+
+/// Optional case-level minimiser of a property: given the failure found by a
+/// byte-driven sub-check, return a smaller equivalent failure together with
+/// the replay input of a *case* sub-check (explicit expression/document).
+pub type MinimiseFn = fn(&Failure, &Env) -> Option<(Failure, Value)>;
 
 pub type CustomFn = fn(&Env, &mut Stats) -> Vec<Failure>;
 pub type CaseReplayFn = fn(&Value, &Env) -> CaseResult;
@@ -230,6 +245,7 @@ pub struct Property {
     pub rule: &'static str,
     pub assumptions: Vec<String>,
     pub subs: Vec<Sub>,
+    pub minimise: Option<MinimiseFn>,
 }
 
 // ---------------------------------------------------------------------------
@@ -339,13 +355,38 @@ fn run_bytes_sub(env: &Arc<Env>, sub: &BytesSub) -> SubOutcome {
     };
     let stop = Arc::new(AtomicBool::new(false));
     let results: Arc<Mutex<Vec<(usize, Stats, Option<(Failure, Vec<u8>)>)>>> = Arc::new(Mutex::new(vec![]));
+    // watchdog: what each runner is executing right now and since when
+    let slots: Arc<Vec<Mutex<Option<(Instant, Vec<u8>)>>>> = Arc::new((0..budget.threads).map(|_| Mutex::new(None)).collect());
+    let done = Arc::new(AtomicBool::new(false));
+    {
+        let (slots, done, prop, subname) = (slots.clone(), done.clone(), env.property, sub.name);
+        std::thread::spawn(move || {
+            while !done.load(Ordering::Relaxed) {
+                std::thread::sleep(std::time::Duration::from_millis(500));
+                for s in slots.iter() {
+                    let stuck = match &*s.lock().unwrap() {
+                        Some((t, bytes)) if t.elapsed().as_secs() >= CASE_TIME_LIMIT_S => Some(bytes.clone()),
+                        _ => None,
+                    };
+                    if let Some(bytes) = stuck {
+                        let fl = Failure::new(subname, "time-limit", format!("one case ran longer than {} s", CASE_TIME_LIMIT_S), json!({}));
+                        let path = save_replay(prop, &fl, &json!({"kind": "bytes", "bytes": bytes}), 0);
+                        eprintln!("INCONCLUSIVE property={} sub={}: a single case exceeded {} s (saved as {}); exit 2, not a violation", prop, subname, CASE_TIME_LIMIT_S, path.display());
+                        std::process::exit(2);
+                    }
+                }
+            }
+        });
+    }
     let mut handles = vec![];
     let subhash = fnv(format!("{}/{}", env.property, sub.name).as_bytes());
     for t in 0..budget.threads {
         let env = env.clone();
         let stop = stop.clone();
         let results = results.clone();
+        let slots = slots.clone();
         let f = sub.f;
+        let keep_unreproducible = sub.keep_unreproducible;
         let max_len = sub.max_len;
         let cases = budget.cases;
         let name = sub.name;
@@ -365,6 +406,8 @@ fn run_bytes_sub(env: &Arc<Env>, sub: &BytesSub) -> SubOutcome {
                 let mut runner = TestRunner::new(cfg);
                 let stats = std::cell::RefCell::new(Stats::new());
                 let failed_here = std::cell::Cell::new(false);
+                let first_seen: std::cell::RefCell<Option<(Failure, Vec<u8>)>> = std::cell::RefCell::new(None);
+                let keep_unrepro = keep_unreproducible;
                 let strat = vec(any::<u8>(), 0..=max_len);
                 let res = runner.run(&strat, |bytes| {
                     // another runner already found something: stop generating, but
@@ -374,7 +417,9 @@ fn run_bytes_sub(env: &Arc<Env>, sub: &BytesSub) -> SubOutcome {
                     }
                     let mut st = stats.borrow_mut();
                     let mut src = Src::new(&bytes);
+                    *slots[t].lock().unwrap() = Some((Instant::now(), bytes.clone()));
                     let r = catch(std::panic::AssertUnwindSafe(|| f(&mut src, &mut st, &env)));
+                    *slots[t].lock().unwrap() = None;
                     match r {
                         Ok(Ok(())) => Ok(()),
                         Ok(Err(fail)) => {
@@ -384,13 +429,24 @@ fn run_bytes_sub(env: &Arc<Env>, sub: &BytesSub) -> SubOutcome {
                             } else {
                                 st.frozen = true;
                                 failed_here.set(true);
+                                if first_seen.borrow().is_none() {
+                                    *first_seen.borrow_mut() = Some((fail.clone(), bytes.clone()));
+                                }
                                 Err(TestCaseError::fail(fail.sig))
                             }
                         }
                         Err(p) => {
                             st.frozen = true;
                             failed_here.set(true);
-                            Err(TestCaseError::fail(format!("harness-panic: {}", p)))
+                            // a panic raised inside the library under test is a finding, not a harness problem
+                            if panic_is_in_library(&p) {
+                                if first_seen.borrow().is_none() {
+                                    *first_seen.borrow_mut() = Some((Failure::new(name, "panic", p.clone(), json!({})), bytes.clone()));
+                                }
+                                Err(TestCaseError::fail("panic".to_string()))
+                            } else {
+                                Err(TestCaseError::fail(format!("harness-panic: {}", p)))
+                            }
                         }
                     }
                 });
@@ -409,6 +465,7 @@ fn run_bytes_sub(env: &Arc<Env>, sub: &BytesSub) -> SubOutcome {
                             let mut src = Src::new(b);
                             match catch(std::panic::AssertUnwindSafe(|| f(&mut src, &mut scratch, &env))) {
                                 Ok(Err(fl)) => fl.sig == sig && !env.is_known(&fl.sig),
+                                Err(p) => sig == "panic" && panic_is_in_library(&p),
                                 _ => false,
                             }
                         });
@@ -419,8 +476,24 @@ fn run_bytes_sub(env: &Arc<Env>, sub: &BytesSub) -> SubOutcome {
                         let r = catch(std::panic::AssertUnwindSafe(|| f(&mut src, &mut scratch, &strict_env)));
                         let fail = match r {
                             Ok(Err(fl)) => fl,
-                            Ok(Ok(())) => Failure::new(name, "flaky", "failure did not reproduce on the minimal input".into(), json!({})),
-                            Err(p) => Failure::new(name, "harness-panic", p, json!({})),
+                            Ok(Ok(())) => {
+                                if keep_unrepro {
+                                    // report what was observed, with the input that showed it
+                                    let (mut fl, b0) = first_seen.borrow().clone().unwrap();
+                                    fl.message = format!("{} [observed during the run; re-executing the shrunk input alone did not reproduce it, so the outcome depends on the schedule or on state left by earlier cases]", fl.message);
+                                    let ov = fl.replay_override.clone();
+                                    results.lock().unwrap().push((t, st.clone(), Some((Failure { replay_override: ov, ..fl }, b0))));
+                                    return;
+                                }
+                                Failure::new(name, "flaky", "failure did not reproduce on the minimal input".into(), json!({}))
+                            }
+                            Err(p) => {
+                                if panic_is_in_library(&p) {
+                                    Failure::new(name, "panic", format!("the library panicked: {}", p), json!({}))
+                                } else {
+                                    Failure::new(name, "harness-panic", p, json!({}))
+                                }
+                            }
                         };
                         Some((fail, bytes))
                     }
@@ -434,6 +507,7 @@ fn run_bytes_sub(env: &Arc<Env>, sub: &BytesSub) -> SubOutcome {
     for h in handles {
         let _ = h.join();
     }
+    done.store(true, Ordering::Relaxed);
     let mut all = std::mem::take(&mut *results.lock().unwrap());
     all.sort_by_key(|x| x.0);
     let mut stats = Stats::new();
@@ -442,7 +516,11 @@ fn run_bytes_sub(env: &Arc<Env>, sub: &BytesSub) -> SubOutcome {
         stats.merge(st);
         if failure.is_none() {
             if let Some((fl, bytes)) = f {
-                failure = Some((fl, json!({"kind": "bytes", "bytes": bytes})));
+                let input = match &fl.replay_override {
+                    Some((_, input)) => input.clone(),
+                    None => json!({"kind": "bytes", "bytes": bytes}),
+                };
+                failure = Some((fl, input));
             }
         }
     }
@@ -460,6 +538,7 @@ fn run_custom_sub(env: &Arc<Env>, sub: &CustomSub) -> SubOutcome {
             let r = catch(std::panic::AssertUnwindSafe(|| run(&env2, &mut st)));
             match r {
                 Ok(fails) => (st, fails),
+                Err(p) if panic_is_in_library(&p) => (st, vec![Failure::new(name, "panic", format!("the library panicked: {}", p), json!({}))]),
                 Err(p) => (st, vec![Failure::new(name, "harness-panic", p, json!({}))]),
             }
         })
@@ -617,7 +696,16 @@ pub fn run_property(p: &Property, tier: Tier, seed: u64, only_sub: Option<&str>)
                 return 2;
             }
             let path = save_replay(p.id, &fl, &input, seed);
-            violations.push((fl, path));
+            // a second, case-level minimisation (token / document level) where the property offers one
+            let mut reported = (fl, path);
+            if let Some(m) = p.minimise {
+                let strict_env = make_env(p, tier, seed, false);
+                if let Ok(Some((small, small_input))) = catch(std::panic::AssertUnwindSafe(|| m(&reported.0, &strict_env))) {
+                    let path2 = save_replay(p.id, &small, &small_input, seed);
+                    reported = (small, path2);
+                }
+            }
+            violations.push(reported);
         }
     }
 
@@ -649,6 +737,11 @@ pub fn run_property(p: &Property, tier: Tier, seed: u64, only_sub: Option<&str>)
     }
 }
 
+/// Does a captured panic description point into the library under test?
+pub fn panic_is_in_library(p: &str) -> bool {
+    p.contains("/jmespath/src/") || p.contains("jmespath-cli/src/")
+}
+
 pub fn clip(s: &str, n: usize) -> String {
     if s.chars().count() <= n {
         s.to_string()
@@ -659,6 +752,7 @@ pub fn clip(s: &str, n: usize) -> String {
 }
 
 pub fn save_replay(prop: &str, fl: &Failure, input: &Value, seed: u64) -> PathBuf {
+    let sub_for_replay = fl.replay_override.as_ref().map(|(s, _)| s.clone()).unwrap_or_else(|| fl.sub.clone());
     let dir = verif_dir().join("replays/new");
     let _ = std::fs::create_dir_all(&dir);
     let h = fnv(format!("{}{}{}", fl.sub, fl.sig, input).as_bytes());
@@ -667,7 +761,8 @@ pub fn save_replay(prop: &str, fl: &Failure, input: &Value, seed: u64) -> PathBu
         &path,
         &json!({
             "property": prop,
-            "sub": fl.sub,
+            "sub": sub_for_replay,
+            "found_by": fl.sub,
             "sig": fl.sig,
             "message": fl.message,
             "case": fl.case,
